@@ -16,6 +16,6 @@ EXPLANATION = (
 
 
 def run(ctx: Ctx) -> None:
-    A.rule_det_pure(ctx, f'{A.KA}.greedy_assignment')
-    A.rule_det_hash(ctx, ('kfac.assignment',))
-    A.rule_greedy(ctx, 'KAISA')
+    ctx.do(A.rule_det_pure, f'{A.KA}.greedy_assignment')
+    ctx.do(A.rule_det_hash, ('kfac.assignment',))
+    ctx.do(A.rule_greedy, 'KAISA')
